@@ -2,8 +2,10 @@ package harness
 
 import (
 	"crypto/sha256"
+	"encoding/json"
 	"errors"
 	"fmt"
+	"os"
 	"runtime/debug"
 	"sort"
 	"strings"
@@ -14,6 +16,14 @@ import (
 	errorsmod "cosmossdk.io/errors"
 	"cosmossdk.io/math"
 	abci "github.com/cometbft/cometbft/abci/types"
+	cmted25519 "github.com/cometbft/cometbft/crypto/ed25519"
+	cmttypes "github.com/cometbft/cometbft/types"
+	codectypes "github.com/cosmos/cosmos-sdk/codec/types"
+	cryptocodec "github.com/cosmos/cosmos-sdk/crypto/codec"
+	"github.com/cosmos/cosmos-sdk/crypto/keys/secp256k1"
+	authtypes "github.com/cosmos/cosmos-sdk/x/auth/types"
+	banktypes "github.com/cosmos/cosmos-sdk/x/bank/types"
+	stakingtypes "github.com/cosmos/cosmos-sdk/x/staking/types"
 	cmtproto "github.com/cometbft/cometbft/proto/tendermint/types"
 	sdk "github.com/cosmos/cosmos-sdk/types"
 	banktestutil "github.com/cosmos/cosmos-sdk/x/bank/testutil"
@@ -35,8 +45,64 @@ type Fix struct {
 
 var BaseTime = time.Date(2024, 1, 1, 0, 0, 0, 0, time.UTC)
 
+// setupDeterministic is app/apptesting.Setup with fixed keys: the validator key and the genesis
+// account are derived from constants, so that two OS processes start from byte-identical state
+// (apptesting.Setup draws fresh random keys on every call).
+func setupDeterministic(t *testing.T) *app.App {
+	a, genesisState := apptesting.SetupTestingApp()
+	valPriv := cmted25519.GenPrivKeyFromSecret([]byte("dymverif-validator"))
+	validator := cmttypes.NewValidator(valPriv.PubKey(), 1)
+	valSet := cmttypes.NewValidatorSet([]*cmttypes.Validator{validator})
+	senderPriv := secp256k1.GenPrivKeyFromSecret([]byte("dymverif-genesis-account"))
+	acc := authtypes.NewBaseAccount(senderPriv.PubKey().Address().Bytes(), senderPriv.PubKey(), 0, 0)
+	balances := []banktypes.Balance{{Address: acc.GetAddress().String(),
+		Coins: sdk.NewCoins(sdk.NewCoin(sdk.DefaultBondDenom, math.NewInt(1000000000000000000)))}}
+	// --- genesisStateWithValSet (unexported in apptesting), verbatim in substance
+	authGenesis := authtypes.NewGenesisState(authtypes.DefaultParams(), []authtypes.GenesisAccount{acc})
+	genesisState[authtypes.ModuleName] = a.AppCodec().MustMarshalJSON(authGenesis)
+	bondAmt := sdk.DefaultPowerReduction
+	var validators []stakingtypes.Validator
+	var delegations []stakingtypes.Delegation
+	for _, val := range valSet.Validators {
+		pk, err := cryptocodec.FromCmtPubKeyInterface(val.PubKey)
+		if err != nil {
+			t.Fatal(err)
+		}
+		pkAny, err := codectypes.NewAnyWithValue(pk)
+		if err != nil {
+			t.Fatal(err)
+		}
+		validators = append(validators, stakingtypes.Validator{
+			OperatorAddress: sdk.ValAddress(val.Address).String(), ConsensusPubkey: pkAny, Status: stakingtypes.Bonded,
+			Tokens: bondAmt, DelegatorShares: math.LegacyOneDec(), UnbondingTime: time.Unix(0, 0).UTC(),
+			Commission:        stakingtypes.NewCommission(math.LegacyZeroDec(), math.LegacyZeroDec(), math.LegacyZeroDec()),
+			MinSelfDelegation: math.ZeroInt()})
+		delegations = append(delegations, stakingtypes.NewDelegation(acc.GetAddress().String(), sdk.ValAddress(val.Address).String(), math.LegacyOneDec()))
+	}
+	genesisState[stakingtypes.ModuleName] = a.AppCodec().MustMarshalJSON(stakingtypes.NewGenesisState(stakingtypes.DefaultParams(), validators, delegations))
+	totalSupply := sdk.NewCoins()
+	for _, b := range balances {
+		totalSupply = totalSupply.Add(b.Coins...)
+	}
+	for range delegations {
+		totalSupply = totalSupply.Add(sdk.NewCoin(sdk.DefaultBondDenom, bondAmt))
+	}
+	balances = append(balances, banktypes.Balance{Address: authtypes.NewModuleAddress(stakingtypes.BondedPoolName).String(),
+		Coins: sdk.Coins{sdk.NewCoin(sdk.DefaultBondDenom, bondAmt)}})
+	genesisState[banktypes.ModuleName] = a.AppCodec().MustMarshalJSON(banktypes.NewGenesisState(banktypes.DefaultGenesisState().Params, balances, totalSupply, []banktypes.Metadata{}, []banktypes.SendEnabled{}))
+	stateBytes, err := json.MarshalIndent(genesisState, "", " ")
+	if err != nil {
+		t.Fatal(err)
+	}
+	if _, err := a.InitChain(&abci.RequestInitChain{ChainId: apptesting.TestChainID, Validators: []abci.ValidatorUpdate{},
+		ConsensusParams: apptesting.DefaultConsensusParams, AppStateBytes: stateBytes, Time: BaseTime}); err != nil {
+		t.Fatal(err)
+	}
+	return a
+}
+
 func NewFix(t *testing.T) *Fix {
-	a := apptesting.Setup(t)
+	a := setupDeterministic(t)
 	// InitChain state lives in the finalize-block state until the first block is committed
 	if _, err := a.FinalizeBlock(&abci.RequestFinalizeBlock{Height: 1, Time: BaseTime}); err != nil {
 		t.Fatal(err)
@@ -145,7 +211,24 @@ func (f *Fix) End() (err error) {
 		}
 	}()
 	_, err = f.App.EndBlocker(f.Ctx)
+	if digestOut != nil {
+		// C12: full store digest after every block, compared across OS processes
+		fmt.Fprintf(digestOut, "h=%d err=%v %s\n", f.Height, err != nil, f.StoreDigest())
+	}
 	return err
+}
+
+// digestOut, when VERIF_DIGEST is set, receives one line per executed block with the digest of
+// every KV store (all keys and values).
+var digestOut *os.File
+
+func init() {
+	if p := os.Getenv("VERIF_DIGEST"); p != "" {
+		f, err := os.Create(p)
+		if err == nil {
+			digestOut = f
+		}
+	}
 }
 
 // ErrClass maps an error to a small class using the registered error it wraps; `table` lists the
